@@ -224,8 +224,16 @@ func WellFormedLine(r *h.Rand, sloppy float64) string {
 		} else {
 			b.WriteString(escKey(k, ", =\""))
 		}
+		if r.Chance(0.04) {
+			// escape pair right before the '=': scanFields and walkFields disagree about it
+			b.WriteString(h.Pick(r, []string{"\\\\", "\\", "\\\\\\"}))
+		}
 		b.WriteByte('=')
-		b.WriteString(fieldValueText(r))
+		if r.Chance(0.05) {
+			b.WriteString("\"" + h.Pick(r, []string{"a=", "=", "x,y=1", "a=\"b", "a b=", "="}) + "\"")
+		} else {
+			b.WriteString(fieldValueText(r))
+		}
 	}
 	switch r.Intn(6) {
 	case 0:
